@@ -69,3 +69,37 @@ fn c05_arp() {
         }
     }
 }
+
+//# harness: c20_arp_events
+//# props: C20
+//# tier: quick
+//# encodes: layer_2::arp::repl
+//# encodes: logger::MetaLogger::{arp_recv,arp_send,arp_drop} (real fan-out to a counting Logger)
+//# bounds: 28-byte ARP body fully symbolic; self-IP list absent or {a4}
+//# known: c20.arp_double_events
+//# cover: arp answered
+//# cover: arp dropped
+#[kani::proof]
+#[kani::unwind(34)]
+fn c20_arp_events() {
+    let buf: [u8; 28] = kani::any();
+    let req = ArpPacket::new(&buf[..]).unwrap();
+    let a4 = any_ip4();
+    let mut s_set = HashSet::new();
+    s_set.insert(IpAddr::V4(a4));
+    let s_on: bool = kani::any();
+    let mut masscanned = ms_counting([0, 0], any_mac());
+    if s_on {
+        masscanned.self_ip_list = Some(&s_set);
+    }
+    let r = repl(&req, &masscanned);
+    if crate::verif_known::C20_ARP_DOUBLE_EVENTS {
+        let e = ev(L_ARP);
+        kani::cover!(e.recv == 2 || e.send == 2, "KF:c20.arp_double_events");
+        assert!(e.recv >= 1 && e.send + e.drop >= 1 && (e.send >= 1) == r.is_some(), "C20: ARP events missing");
+    } else {
+        assert!(balanced(L_ARP, r.is_some()), "C20: ARP layer did not log exactly one recv and one terminal event (send iff answered)");
+    }
+    kani::cover!(r.is_some(), "arp answered");
+    kani::cover!(r.is_none(), "arp dropped");
+}
